@@ -1112,3 +1112,22 @@ def _text_content_depth(repo, ob, failure):
 
 GENERATORS.insert(0, ("C17.depth.text_content", _text_content_depth))
 GENERATORS.insert(0, ("C17.depth.container", _text_content_depth))
+
+
+def _clip_chain_depth(repo, ob, failure):
+    """following clip-path references is not element nesting: the depth limit does not reject a flat document for it; a cyclic chain is an error, not a hang"""
+    docs = ['<svg><config depth-limit="3"/><clipPath id="c1"><rect wh="5"/></clipPath><clipPath id="c2" clip-path="url(#c1)"><rect wh="6"/></clipPath>'
+            '<clipPath id="c3" clip-path="url(#c2)"><rect wh="8"/></clipPath><rect wh="10" clip-path="url(#c3)"/></svg>']
+    for doc in docs:
+        r = run_svgdx(repo, doc)
+        if r["rc"] != 0 and "DepthLimit" in r["err"]:
+            return {"input": doc, "observed": "rejected: " + r["err"].strip()[-60:], "expected": "accepted (nesting depth is 3)"}
+    cyc = ('<svg><defs><clipPath id="a" clip-path="url(#b)"><rect wh="5"/></clipPath><clipPath id="b" clip-path="url(#a)"><rect wh="5"/></clipPath></defs>'
+           '<rect wh="10" clip-path="url(#a)"/></svg>')
+    r = run_svgdx(repo, cyc, timeout=20)
+    if r["timeout"] or r["rc"] not in (0, 1, 2):
+        return {"input": cyc, "observed": "process %s" % ("hangs" if r["timeout"] else "dies with status %s" % r["rc"]), "expected": "an error"}
+    return None
+
+
+GENERATORS.insert(0, ("C01.clip.terminates", _clip_chain_depth))
